@@ -47,7 +47,10 @@ func extScripted() [][]extOp {
 		extOp{A: "Remove", P: "a"}, extOp{A: "Remove", P: "l"}, extOp{A: "Churn", P: "", K: 40}, extOp{A: "Remove", P: "d/l"}, extOp{A: "Remove", P: "d"}, extOp{A: "Remove", P: "b"}, extOp{A: "BigFile", K: 40})
 	b := []extOp{{A: "Create", P: "a"}, {A: "WriteAt", P: "a", Off: 9, Len: 1, Tag: 1}, {A: "Symlink", P: "l", T: "t60"}, {A: "Symlink", P: "l", T: "t1"}, {A: "Mkdir", P: "d"}, {A: "Churn2", P: "d", K: 24}, {A: "Symlink", P: "d/l", T: "t61"},
 		{A: "Create", P: "d/a"}, {A: "Append", P: "d/a", Len: 5, Tag: 2}, {A: "Remove", P: "d"}, {A: "Remove", P: "d/l"}, {A: "Remove", P: "d/a"}, {A: "Remove", P: "d"}, {A: "Mkdir", P: "d"}, {A: "Symlink", P: "d/l", T: "abs"}, {A: "BigFile", K: 5}}
-	return [][]extOp{a, b}
+	// a directory that grows across a block group boundary (twice: on the fresh volume and after some traffic)
+	cc := []extOp{{A: "Mkdir", P: "d"}, {A: "Straddle"}, {A: "Create", P: "a"}, {A: "Append", P: "a", Len: 5, Tag: 1}, {A: "Create", P: "d/a"}, {A: "Append", P: "d/a", Len: 9, Tag: 2},
+		{A: "Straddle"}, {A: "Remove", P: "a"}, {A: "Churn", P: "d", K: 30}, {A: "Straddle"}, {A: "Remove", P: "d/a"}, {A: "Remove", P: "d"}, {A: "BigFile", K: 20}}
+	return [][]extOp{a, b, cc}
 }
 
 func extGenerate(c *core.Ctx, depth int, attr bool, walks, walkDepth int) ([][]extOp, []string, bool) {
